@@ -179,12 +179,36 @@ void World::createForest(int idx)
     for (int k = 1; k <= n; k++) F.lvl2var[k] = k;
 }
 
+// I8: destroying a forest destroys the operations that mention it.  The
+// registry and the operations' forest accessors are public; the dead forest's
+// address is only compared, never dereferenced.
+static bool opMentions(const void* dead, std::string &name)
+{
+    for (unsigned i = 1; i < operation::getOpListSize(); i++) {
+        operation* op = operation::getOpWithID(i);
+        if (!op) continue;
+        bool hit = false;
+        if (binary_operation* b = dynamic_cast<binary_operation*>(op)) {
+            hit = (b->getOp1F() == dead || b->getOp2F() == dead || b->getResF() == dead);
+        }
+        if (hit) { name = op->getName() ? op->getName() : "?"; return true; }
+    }
+    return false;
+}
+
 void World::destroyForest(int idx)
 {
     ForRT &F = forests[idx];
     if (!F.alive) return;
     unsigned fid = F.fid;
+    const void* dead = F.f;
     forest::destroy(F.f);
+    {
+        std::string nm;
+        if (opMentions(dead, nm)) {
+            failNow("I8", "lifecycle", "operation '" + nm + "' that mentions the destroyed forest is still registered");
+        }
+    }
     F.alive = false;
     F.f = nullptr;
     for (EdgeSlot* e : edges) if (e->forest == idx) e->forest = -1;
@@ -199,10 +223,12 @@ void World::destroyDomain(int idx)
     DomRT &D = doms[idx];
     if (!D.alive) return;
     std::vector<unsigned> fids;
+    std::vector<const void*> deadF;
     for (size_t i = 0; i < forests.size(); i++) {
         ForRT &F = forests[i];
         if (F.alive && F.spec.dom == idx) {
             fids.push_back(F.fid);
+            deadF.push_back(F.f);
             F.alive = false;
             F.f = nullptr;
             for (EdgeSlot* e : edges) if (e->forest == int(i)) e->forest = -1;
@@ -215,6 +241,12 @@ void World::destroyDomain(int idx)
     for (unsigned fid : fids) {
         if (forest::getForestWithID(fid) != nullptr) {
             failNow("I8", "lifecycle", "forest of a destroyed domain still registered");
+        }
+    }
+    for (const void* dead : deadF) {
+        std::string nm;
+        if (opMentions(dead, nm)) {
+            failNow("I8", "lifecycle", "operation '" + nm + "' that mentions a forest of the destroyed domain is still registered");
         }
     }
 }
